@@ -91,6 +91,10 @@ class Gen:
                 fl = " " + r.choice(["b", "b", "s", "d", "b"] + (["i"] if t != "-" else []))
                 if r.random() < 0.25:
                     fl = ""
+            if fam == "block" and t == "0" and fl.strip() != "d":
+                # a zero timeout races with the reply on real threads (both outcomes are legal);
+                # only the deprecated aliases, which ignore it, are deterministic
+                t = "1"
             self.emit(f"op {o} {k} {self.pick_strong(hostile)} {t}{fl}")
             self.ops.append(o)
         elif x < 0.52:
